@@ -1,7 +1,7 @@
 (* C06 -- Every metafile written is canonical, structurally valid bencoding.
    Statements only; every proof is `exact <lemma>`. *)
 From Coq Require Import List Sorting.Sorted. Import ListNotations.
-From TF Require Import Lib.Base Lib.Lex Model.Bencode Proofs.BencodeProofs.
+From TF Require Import Lib.Base Lib.Lex Model.Bencode Proofs.BencodeProofs Model.Edit Proofs.EditProofs.
 
 (* canonical byte strings (the executable strict recogniser: sorted unique keys at every depth, no
    redundant digits, nothing after the top-level value) are EXACTLY the encodings of values whose
@@ -40,5 +40,19 @@ Theorem C06_sorted_keys_strictly_ascending : forall d,
 Proof. exact sort_keys_sorted. Qed.
 Print Assumptions C06_sorted_keys_strictly_ascending.
 
-(* creators-level and edit-level theorems (canon of the value each creator / edit_torrent writes):
-   added below from Proofs/CreatorsProofs.v and Proofs/EditProofs.v when those are in place *)
+(* edit: a canonical metafile stays canonical under every edit request, hence (induction over the
+   sequence, Proofs/EditProofs.v) under every sequence of edits; and even a foreign, unsorted but
+   duplicate-free metafile comes out with a strictly sorted top level *)
+Theorem C06_edit_preserves_canonical :
+  forall (req : request) (m : list (bytes * value)) (m' : dict),
+       canon (BDict m) -> edit_torrent req m = Some m' -> canon (BDict m').
+Proof. exact edit_canon. Qed.
+Print Assumptions C06_edit_preserves_canonical.
+
+Theorem C06_edit_top_level_sorted :
+  forall (req : request) (m : list (bytes * value)) (m' : dict),
+       NoDup (map fst m) -> edit_torrent req m = Some m' -> Sorted.StronglySorted key_lt m'.
+Proof. exact edit_top_sorted. Qed.
+Print Assumptions C06_edit_top_level_sorted.
+
+(* creators-level theorems (canon of the value each creator writes): added from Proofs/CreatorsProofs.v when in place *)
